@@ -84,5 +84,5 @@ static void prop(Tape &t, Ctx &c) {
     if (rc >= 0 || pem) c.nontrivial(fmt("pem:%u:%d:%zu:%zu", api, rc, in.n / 16, outl / 16));
     if (rc >= 0) c.sample(fmt("%s len=%zu pass=%s type=%d rc=%d outlen=%zu", names[api], in.n, pass ? pass : "(null)", (int) ty, rc, outl));
 }
-VF_TARGET("C09.pem_decode", prop, 1024, 20)
+VF_TARGET("C09.pem_decode", prop, 1024, 12)
 namespace vf { void vf_global_init(int, char **) { psCryptoOpen(PSCRYPTO_CONFIG); } }
